@@ -9,6 +9,10 @@ from .common import where
 
 def run_block(chk, repo, rid_prefix, q, kind, single_rule=None, rule_override=None):
     fi = repo.func(q)
+    # behaviour-preserving spellings are rewritten into the one the engine knows (sa/blocknorm.py)
+    from ..blocknorm import normalise
+    from ..canon import CanonFunc
+    fi = CanonFunc(fi, normalise(fi.node), {})
     items = []
 
     def report(k, node, ok, text):
